@@ -177,7 +177,8 @@ class ID3(ID3Tags, mutagen.Metadata):
 
             if load_v1:
                 v1v2_ver = 4 if self.version[1] == 4 else 3
-                frames, offset = find_id3v1(fileobj, v1v2_ver, known_frames)
+                frames, offset = find_id3v1(
+                    fileobj, v1v2_ver, known_frames, start=fileobj.tell())
                 if frames:
                     for v in frames.values():
                         if len(self.getall(v.HashKey)) == 0:
@@ -274,10 +275,11 @@ class ID3(ID3Tags, mutagen.Metadata):
         f.seek(0)
         f.write(data)
 
-        self.__save_v1(f, v1)
+        self.__save_v1(f, v1, new_size)
 
-    def __save_v1(self, f, v1):
-        tag, offset = find_id3v1(f)
+    def __save_v1(self, f, v1, v2_size):
+        # an ID3v1 tag can't lie inside the ID3v2 tag just written
+        tag, offset = find_id3v1(f, start=v2_size)
         has_v1 = tag is not None
 
         f.seek(offset, 2)
